@@ -174,6 +174,14 @@ pub fn run(ctx: &Ctx) {
     for h in [HashId::Sha256_256, HashId::Shake256_256] {
         eight.push(SignCase { hash: h, levels: vec![(1, 2); 8], seed: gen::SeedSpec::Random(8), counter: 5, counter_class: "siglen".into(), msg: gen::MsgSpec { len: 10, tag: 8 } });
     }
+    // ... and the longest lists that do fit (truncated hashes: 8 x W1; n = 32: 7 x W1)
+    for h in ALL_HASHES {
+        let l = if h.n() < 32 { vec![(1u32, 2u32); 8] } else { vec![(1u32, 2u32); 7] };
+        let total = 1u64 << (2 * l.len());
+        for counter in [0u64, total - 1] {
+            eight.push(SignCase { hash: h, levels: l.clone(), seed: gen::SeedSpec::Random(9), counter, counter_class: "longest-fitting".into(), msg: gen::MsgSpec { len: 12, tag: 9 } });
+        }
+    }
     // messages longer than 64 KiB (16-bit length boundaries inside hashing / buffering code)
     for (k, len) in [65_535usize, 65_536, 65_537, 70_001, 131_072, 200_000].iter().enumerate() {
         for h in [ALL_HASHES[k % 6], ALL_HASHES[(k + 3) % 6]] {
